@@ -413,6 +413,60 @@ func c04Run(w *core.W) {
 			w.Fail(string(b), sig, detail)
 		}
 	}
+	// closures handed out by (nested) generators whose loop is abandoned, then unrelated loops and calls recycle the
+	// abandoned contexts: the closure keeps reading the generator's variable as it was
+	w.Family("closures-from-abandoned-generators")
+	{
+		inner := "inner = () -> {\n  v = 1\n  while v < 10 {\n    yield () -> v\n    v = v + 1\n  }\n}"
+		gens := map[string][]string{
+			"direct":   {inner, "src = inner"},
+			"composed": {inner, "src = () -> for f <- inner() yield f"},
+			"twice":    {inner, "mid = () -> for f <- inner() yield f", "src = () -> for f <- mid() yield f"},
+			"zipped":   {inner, "src = () -> for f, i <- inner(), fromto(0, 9) yield f"},
+		}
+		takes := map[string]string{
+			"first":  "take = () -> {\n  for f <- src() return f\n}",
+			"third":  "take = () -> {\n  n = 0\n  for f <- src() {\n    n = n + 1\n    if n == 3 return f\n  }\n}",
+			"nested": "take = () -> {\n  for i <- fromto(0, 2) for f <- src() return f\n}",
+		}
+		churns := []string{
+			"other = () -> {\n  s = 0\n  for a <- fromto(100, 103) for b <- fromto(200, 203) s = s + a + b\n  s\n}",
+			"other = () -> {\n  s = 0\n  for a, b <- fromto(100, 103), fromto(200, 203) s = s + a + b\n  for c <- fromto(300, 303) s = s + c\n  s\n}",
+			"other = () -> {\n  s = []\n  for f <- src() s = s + [f()]\n  s\n}",
+			"other = () -> {\n  d = (n) -> if n <= 0 0 else 1 + d(n - 1)\n  d(150)\n}",
+		}
+		for _, gk := range []string{"direct", "composed", "twice", "zipped"} {
+			for _, tk := range []string{"first", "third", "nested"} {
+				for _, ch := range churns {
+					st := append(append([]string{}, gens[gk]...), takes[tk], ch,
+						"main = () -> {\n  g = take()\n  before = g()\n  other()\n  [before, g(), other(), g()]\n}", "main()", "k = take()", "[k(), other(), k()]", "k()")
+					if !emit(st) {
+						return
+					}
+				}
+			}
+		}
+	}
+	// the scope skeletons whose definer grows the stack, in a session whose first statement failed inside nested calls
+	w.Family("scope-skeletons-after-a-failed-statement")
+	for _, def := range []string{"param", "local"} {
+		for _, inner := range c04InnerOrder {
+			for _, upd := range []string{"grow-assign", "grow-locals-assign", "grow-wide-assign"} {
+				for _, use := range []string{"call", "return", "return-array"} {
+					for _, depth := range []int{1, 3} {
+						d := c04Dims{true, 0, def, inner, upd, use, "deep"}
+						if use == "call" {
+							d.Churn = "none"
+						}
+						st := append([]string{"bad = (n) -> if n <= 0 1 / 0 else bad(n - 1) + 1", fmt.Sprintf("bad(%d)", depth)}, c04Program(d)...)
+						if !emit(st) {
+							return
+						}
+					}
+				}
+			}
+		}
+	}
 	w.Family("recursive-definers")
 	for _, depth := range []int{3, 50, 200} {
 		for _, body := range []string{
